@@ -70,6 +70,7 @@ pub struct ExecOut {
 thread_local! {
     static CLOCK: Cell<(i64, u64)> = const { Cell::new((0, 0)) };
     static OUT: RefCell<ExecOut> = RefCell::new(ExecOut::default());
+    static CPI_FAILED: RefCell<Option<u64>> = const { RefCell::new(None) };
     static CALLER: Cell<Pubkey> = const { Cell::new(Pubkey::new_from_array([0u8; 32])) };
 }
 
@@ -180,8 +181,14 @@ fn pino_invoke(ix: &pinocchio::instruction::Instruction, accounts: &[pinocchio::
     let seed_vecs: Vec<Vec<&[u8]>> = signers.iter().map(|s| s.host_seeds().iter().map(|x| &**x).collect()).collect();
     let seed_refs: Vec<&[&[u8]]> = seed_vecs.iter().map(|v| &v[..]).collect();
     if let Err(e) = cpi(&sol_ix, &infos, &seed_refs) {
-        // the runtime aborts the whole instruction when a CPI fails
-        std::panic::panic_any(format!("CPI-FAILED {:?}", e));
+        // the runtime aborts the whole instruction when a CPI fails.  The host cannot unwind through the
+        // `extern "C"` entrypoint, so the failure is recorded and the instruction is failed after it returns
+        // (everything it did is discarded, as for any failed instruction).
+        CPI_FAILED.with(|c| {
+            if c.borrow().is_none() {
+                *c.borrow_mut() = Some(u64::from(e));
+            }
+        });
     }
 }
 
@@ -345,6 +352,7 @@ impl Bank {
         CLOCK.with(|c| c.set((self.now, self.epoch)));
         CALLER.with(|c| c.set(program_id));
         OUT.with(|o| *o.borrow_mut() = ExecOut::default());
+        CPI_FAILED.with(|c| *c.borrow_mut() = None);
         // ---- serialize
         let mut first: BTreeMap<Pubkey, usize> = BTreeMap::new();
         let mut buf: Vec<u8> = vec![];
@@ -389,7 +397,9 @@ impl Bank {
         // ---- run
         let rc = std::panic::catch_unwind(std::panic::AssertUnwindSafe(|| unsafe { entrypoint(base) }));
         let out = OUT.with(|o| o.borrow().clone());
+        let cpi_failed = CPI_FAILED.with(|c| c.borrow_mut().take());
         let rc = match rc {
+            _ if cpi_failed.is_some() => Err(ExecError::Code(cpi_failed.unwrap())),
             Ok(0) => Ok(()),
             Ok(c) => Err(ExecError::Code(c)),
             Err(p) => {
